@@ -97,6 +97,9 @@ class Prop(common.PropertyCheck):
         if case['ninst'] == 2:
             ex.write_fcs('beads2.fcs', 'FC002', kind='beads', n=1400, voltage=450, seed=case['seed'] % 1000 + 2)
             brow.append(excelgen.beads_row('B2', 'FC002', 'beads2.fcs', channels=('GFP-A',), mef={'GFP-A': excelgen.MEF_VALUES['FL1']}))
+        # a further beads row of the first instrument with other manufacturer values (another calibration), listed last: no sample refers to it
+        brow.append(excelgen.beads_row('B9', 'FC001', 'beads1.fcs', channels=('FL1', 'FL3'), clustering=('FL1', 'FL3'),
+                                       mef={'FL1': excelgen.MEF_VALUES['FL2'], 'FL3': excelgen.MEF_VALUES['FL1']}))
         beads_table = excelgen.table(brow)
         srow, facts = [], []
         for j, r in enumerate(case['rows']):
@@ -169,7 +172,10 @@ class Prop(common.PropertyCheck):
                             s = FlowCal.transform.to_rfi(s, c); steps.append(['to_rfi', [c]])
                         elif ul == 'mef':
                             s = FlowCal.transform.to_rfi(s, c); steps.append(['to_rfi', [c]])
-                            s = fx['B1' if f['iid'] == 'FC001' else 'B2'](s, c); steps.append(['to_mef', c])
+                            # (the calibration of the referenced beads row as the library reports it for that row, not the function handed to the samples table)
+                            bid = 'B1' if f['iid'] == 'FC001' else 'B2'
+                            hand = mo[bid].transform_fxn if (bid in mo and mo[bid] is not None) else fx[bid]
+                            s = hand(s, c); steps.append(['to_mef', c])
                         report.append(c)
                     g = FlowCal.gate.start_end(s, num_start=250, num_end=100); steps.append(['start_end', 250, 100])
                     if case['datatype'] == 'I':
